@@ -62,7 +62,7 @@ func (g *G) fmtFrag() string { return g.pick("s0", "s1", `"lit"`, `f2("é", s0)`
 func (g *G) boolFrag() string { return g.pick("b0", "b1", "!b0", "!b1", "b0 && b1", "n0 > 1") }
 
 func (g *G) staticText() string {
-	base := []string{"hello", "a b", "x <em>y</em> z", "tail", "1 & 2", "it's", "a.b", "50% off", "q?", "(p)", "C#", "no. #", "a ##", "#1 x"}
+	base := []string{"hello", "a b", "x <em>y</em> z", "tail", "1 & 2", "it's", "a.b", "50% off", "q?", "(p)", "C#", "no. #", "a ##", "#1 x", "a #b c", "x #y", "1 # 2 ##3"}
 	if g.O.NonASCII {
 		base = append(base, "ünï", "日本", "a😀b")
 	}
@@ -100,7 +100,15 @@ func (g *G) textParts() []Part {
 				ps = append(ps, Part{Expr: g.fmtFrag(), Verb: g.pick("%s", "%q", "%5s")})
 			}
 		case 5:
-			ps = append(ps, Part{EscHash: true, Static: "no"})
+			if g.chance(2) {
+				ps = append(ps, Part{EscHash: true, Static: "no"})
+			} else {
+				// a `#` that does not start an interpolation, directly before one / at the end of the text
+				ps = append(ps, Part{Static: g.pick("a#", "#", "no.#")}, Part{Expr: g.strFrag()})
+				if g.chance(2) {
+					ps = append(ps, Part{Static: " end#"})
+				}
+			}
 		}
 		if i < n-1 && !(g.chance(4) && strings.HasSuffix(ps[len(ps)-1].Static, "#")) {
 			// (sometimes a literal '#' sits directly before an interpolation: `no. ##{n}`)
@@ -277,6 +285,16 @@ func (g *G) Block(depth int) []*Node {
 		switch k {
 		case 0:
 			e := g.elemHead()
+			if g.chance(7) {
+				// a void element (never has content); `>` on it removes the white space before it only
+				e.Tag = g.pick("br", "hr", "img", "input", "wbr")
+				e.NukeInner = false
+				if g.O.MarkerHeavy && g.chance(2) {
+					e.NukeOuter = true
+				}
+				out = append(out, e)
+				continue
+			}
 			if g.R.Intn(4) > 0 {
 				e.Inline = g.inline()
 				if e.NukeInner || e.NukeOuter {
